@@ -43,13 +43,23 @@ def variational_operand_rule(chk, src):
     ps = fi.params()      # self, mpo, guess
     for operand, label in ((ps[1], "operator"), ("self", "state")):
         chains = []
+        from ..src import defs_of
         for st in ast.walk(fi.node):
             if isinstance(st, ast.Assign) and isinstance(st.value, ast.Call):
-                # walk down the method chain to its root
+                # walk down the method chain to its root, through locals that are assigned exactly once
                 names, cur = [], st.value
-                while isinstance(cur, ast.Call) and isinstance(cur.func, ast.Attribute):
-                    names.append(cur.func.attr)
-                    cur = cur.func.value
+                hops = 0
+                while True:
+                    while isinstance(cur, ast.Call) and isinstance(cur.func, ast.Attribute):
+                        names.append(cur.func.attr)
+                        cur = cur.func.value
+                    if isinstance(cur, ast.Name) and cur.id not in fi.params() and hops < 6:
+                        d = defs_of(fi.node, cur.id)
+                        if len(d) == 1 and isinstance(d[0], ast.Call):
+                            cur = d[0]
+                            hops += 1
+                            continue
+                    break
                 if isinstance(cur, ast.Name) and cur.id == operand and any(n in ("canonicalise", "compress") for n in names):
                     chains.append(list(reversed(names)))
         ok = bool(chains) and all(c[0] == "copy" for c in chains)
